@@ -6,7 +6,7 @@ def rerun(rec):
     kind = rec.get("kind")
     inp = rec.get("input")
     mod = {"c04_delivery": "c04", "c10_isolation": "c10", "c19_calendar": "c19", "c15_folds": "c15", "c16_metrics": "c16",
-           "c18_tabular": "c18", "c07_record": "c07", "c02_lookahead": "c02", "c09_insolvency": "c09", "c08_timing": "c08", "c11_chain": "c11",
+           "c18_tabular": "c18", "c07_record": "c07", "c02_lookahead": "c02", "c09_insolvency": "c09", "c14_books": "c14", "c08_timing": "c08", "c11_chain": "c11",
            "runtime_contract": "runtime"}.get(kind)
     if mod is None:
         print("no re-run function for kind %r" % kind)
